@@ -349,6 +349,9 @@ func (c *Ctx) locksetOf(fn *ssa.Function, entry map[lockKey]string) *lockResult 
 		if (m == "R") != op.read {
 			issue("unheld", in, op.key, fmt.Sprintf("releases %s with the wrong mode (held %s)", op.key, m))
 		}
+		if _, inherited := entry[op.key]; inherited {
+			issue("caller-lock-released", in, op.key, fmt.Sprintf("releases %s, which its callers hold across the call: the callers' critical section is split in two and other goroutines can observe (and change) the half-updated state in between", op.key))
+		}
 		delete(s.held, op.key)
 	}
 	for len(work) > 0 {
